@@ -23,6 +23,18 @@ _TABLE0 = set(_decl.BuiltinImplementationSpecifications)
 assert not (_TABLE0 & set(BUILTINS)), "a pool type is already declared at import time"
 
 
+class UnexpectedSpecification(Exception):
+    pass
+
+
+class CaseTimeout(Exception):
+    pass
+
+
+def _alarm(signum, frame):
+    raise CaseTimeout()
+
+
 def clean_builtin_table():
     """BuiltinImplementationSpecifications is process-global: forget what the case put there"""
     for k in list(_decl.BuiltinImplementationSpecifications):
@@ -74,7 +86,12 @@ class World:
             elif "dpb" in a:
                 out.append(directlyProvidedBy(self.target(a["dpb"])))
             else:
-                out.append(providedBy(self.target(a["prov"])))
+                spec = providedBy(self.target(a["prov"]))
+                if isinstance(spec, _decl.Implements):
+                    # the generator only asks for objects that have their own __provides__; a live
+                    # class specification here is outside the model (and can close a cycle)
+                    raise UnexpectedSpecification("providedBy returned the class specification")
+                out.append(spec)
         nest = op.get("nest")
         if nest:
             grouped, pos = [], 0
@@ -95,12 +112,23 @@ class World:
         if k == "NewClass":
             bases = tuple(self.classes[b] for b in op["bases"]) or (object,)
             name = "C%d" % len(self.classes)
+            body = {"__module__": "c01case"}
+            if op.get("old") is not None:
+                # an old-style declaration in the class body: one interface, a tuple, nested
+                items = [I[i] for i in op["old"]]
+                shape = op.get("oldshape", "tuple")
+                if shape == "single" and len(items) == 1:
+                    body["__implemented__"] = items[0]
+                elif shape == "nested":
+                    body["__implemented__"] = (tuple(items[:1]), [tuple(items[1:])])
+                else:
+                    body["__implemented__"] = tuple(items)
             if op.get("bi") is not None:
                 self.classes.append(BUILTINS[op["bi"]])
             elif op.get("m") is None:
-                self.classes.append(type(name, bases, {"__module__": "c01case"}))
+                self.classes.append(type(name, bases, body))
             else:
-                self.classes.append(self.metas[op["m"]](name, bases, {"__module__": "c01case"}))
+                self.classes.append(self.metas[op["m"]](name, bases, body))
         elif k == "NewInstance":
             self.objs[self.nobj] = self.classes[op["c"]]()   # built-in types: int() etc.
             self.nobj += 1
@@ -209,11 +237,16 @@ def main():
     gc.collect()
     gc.freeze()
     out = []
+    import signal
+    signal.signal(signal.SIGALRM, _alarm)
     for case in cases:
         try:
+            signal.alarm(20)      # a specification graph with a cycle makes the library loop
             res = run_case(case)
-        except Exception as e:
+        except BaseException as e:
             res = {"steps": [], "crash": type(e).__name__ + ": " + str(e)[:200]}
+        finally:
+            signal.alarm(0)
         out.append(json.dumps(res))
         del res
         clean_builtin_table()
